@@ -51,11 +51,13 @@ Proof. intros [] []; cbn; split; congruence. Qed.
 
 Lemma adjust_legal : forall d t,
   d <> DUnk -> t_dir t <> DUnk -> (d = Inactive -> t_dir t = Inactive) ->
+  (d = Sendonly -> t_dir t <> Sendrecv /\ t_dir t <> Sendonly) ->
   legal d (t_dir (adjust d t)) = true.
 Proof.
-  intros d t Hd Ht Hi. destruct d; try congruence.
+  intros d t Hd Ht Hi Hs. destruct d; try congruence.
   - unfold adjust. destruct (t_dir t) eqn:E; cbn; rewrite ?E; cbn; congruence.
-  - unfold adjust. destruct (t_dir t) eqn:E; cbn; rewrite ?E; cbn; congruence.
+  - destruct (Hs eq_refl) as [S1 S2].
+    unfold adjust. destruct (t_dir t) eqn:E; cbn; rewrite ?E; cbn; congruence.
   - unfold adjust. destruct (t_dir t) eqn:E; cbn; rewrite ?E; cbn; congruence.
   - unfold adjust. now rewrite (Hi eq_refl).
 Qed.
@@ -128,7 +130,7 @@ Lemma first_match_spec : forall p k d cands r rest,
   first_match p k d cands = (r, rest) ->
   (forall x, In x cands -> (match r with Some i => x = i | None => False end) \/ In x rest) /\
   match r with
-  | Some i => exists t, nth_error p i = Some t /\ t_mid t = None
+  | Some i => exists t, nth_error p i = Some t /\ t_mid t = None /\ t_dir t = d
   | None => True
   end.
 Proof.
@@ -139,7 +141,10 @@ Proof.
                 && kind_eqb (t_kind t) k && dir_eqb d (t_dir t)) eqn:C.
       * injection H as <- <-. split.
         -- intros x [->|Hx]; auto.
-        -- exists t. split; auto. destruct (t_mid t); cbn in C; auto; discriminate.
+        -- exists t. split; auto.
+           apply andb_true_iff in C as [C Cd]. apply andb_true_iff in C as [Cm _].
+           split; [destruct (t_mid t); auto; discriminate|].
+           symmetry. now apply dir_eqb_eq.
       * destruct (first_match p k d cs) as [r' rest'] eqn:F. injection H as <- <-.
         destruct (IH _ _ eq_refl) as [A B]. split; auto.
         intros x [->|Hx]; [right; now left|]. destruct (A x Hx); auto. right. now right.
@@ -152,15 +157,17 @@ Lemma satisfy_dirs_spec : forall p k ds cands r rest,
   satisfy_dirs p k ds cands = (r, rest) ->
   (forall x, In x cands -> (match r with Some i => x = i | None => False end) \/ In x rest) /\
   match r with
-  | Some i => exists t, nth_error p i = Some t /\ t_mid t = None
+  | Some i => exists t, nth_error p i = Some t /\ t_mid t = None /\ In (t_dir t) ds
   | None => True
   end.
 Proof.
   intros p k. induction ds as [|d ds IH]; intros cands r rest H; cbn in H.
   - injection H as <- <-. split; auto.
   - destruct (first_match p k d cands) as [[i|] rest'] eqn:F.
-    + injection H as <- <-. exact (first_match_spec _ _ _ _ _ _ F).
-    + eauto.
+    + injection H as <- <-. destruct (first_match_spec _ _ _ _ _ _ F) as [A (t & Ht & Hm & Hd)].
+      split; auto. exists t. repeat split; auto. now left.
+    + destruct (IH _ _ _ H) as [A B]. split; auto. destruct r; auto.
+      destruct B as (t & Ht & Hm & Hd). exists t. repeat split; auto. now right.
 Qed.
 
 (* ---------- the invariant ---------- *)
@@ -182,25 +189,36 @@ Definition leg (secs : list (kind * dir)) (m : nat) (p : pc) : Prop :=
     nth_error secs j = Some (k, d) -> d <> DUnk ->
     legal d (t_dir t) = true /\ t_rem t = d.
 
-Definition inv (secs : list (kind * dir)) (m : nat) (st : pc * list nat) : Prop :=
-  wf (fst st) /\ used (fst st) (snd st) m /\ leg secs m (fst st).
+(* L = true: with the legality component; L = false: well-formedness only
+   (needs no guard, used for reachability) *)
+Definition legb (L : bool) (secs : list (kind * dir)) (m : nat) (p : pc) : Prop :=
+  if L then leg secs m p else True.
+
+Definition inv (L : bool) (secs : list (kind * dir)) (m : nat) (st : pc * list nat) : Prop :=
+  wf (fst st) /\ used (fst st) (snd st) m /\ legb L secs m (fst st).
+
+(* no transceiver bound to an offered-sendonly section from m on keeps sending *)
+Definition guard_from (secs : list (kind * dir)) (m : nat) (p : pc) : Prop :=
+  forall j k i t, m <= j -> nth_error secs j = Some (k, Sendonly) -> tr_at p i t ->
+    t_mid t = Some j -> t_dir t <> Sendrecv /\ t_dir t <> Sendonly.
 
 Lemma not_in_rest : forall (cands rest : list nat) i x,
   (forall y, In y cands -> y = i \/ In y rest) -> ~ In x rest -> x <> i -> ~ In x cands.
 Proof. intros cands rest i x H Hn Hne Hin. destruct (H x Hin); auto. Qed.
 
 (* replacing transceiver i by one bound to mid m that answers section m legally *)
-Lemma inv_update : forall secs m p cands rest i t t' k d,
-  inv secs m (p, cands) ->
+Lemma inv_update : forall L secs m p cands rest i t t' k d,
+  inv L secs m (p, cands) ->
   nth_error secs m = Some (k, d) -> d <> DUnk ->
   tr_at p i t ->
   (t_mid t = Some m \/
    (t_mid t = None /\ forall x tx, tr_at p x tx -> t_mid tx <> Some m)) ->
-  t_mid t' = Some m -> legal d (t_dir t') = true -> t_rem t' = d ->
+  t_mid t' = Some m -> t_dir t' <> DUnk ->
+  (L = true -> legal d (t_dir t') = true /\ t_rem t' = d) ->
   (forall x, In x cands -> x = i \/ In x rest) ->
-  inv secs (S m) (update p i t', rest).
+  inv L secs (S m) (update p i t', rest).
 Proof.
-  intros secs m p cands rest i t t' k d [[U R] [Us L]] Hsec Hd Hi Hmid Hm' Hleg Hrem Hrest.
+  intros L secs m p cands rest i t t' k d [[U R] [Us Lg]] Hsec Hd Hi Hmid Hm' Hreal Hleg Hrest.
   cbn [fst snd] in *. unfold inv; cbn [fst snd].
   assert (NoOther : forall x tx, tr_at p x tx -> x <> i -> t_mid tx <> Some m).
   { intros x tx Hx Hne Hmx. destruct Hmid as [Hmid|[_ Hnone]].
@@ -213,30 +231,31 @@ Proof.
     + rewrite Hm' in M1. injection M1 as <-. exfalso. eapply NoOther; eauto.
     + subst i2. rewrite Hm' in M2. injection M2 as <-. exfalso. eapply (NoOther i1); eauto.
     + eapply U; eauto.
-  - intros x tx Hx. unfold tr_at in Hx. apply nth_update_inv in Hx as [(_ & -> & _)|(_ & Hx)].
-    + eapply legal_real; eauto.
-    + eapply R; eauto.
+  - intros x tx Hx. unfold tr_at in Hx. apply nth_update_inv in Hx as [(_ & -> & _)|(_ & Hx)]; auto.
+    eapply R; eauto.
   - intros x tx Hx Hn. unfold tr_at in Hx. apply nth_update_inv in Hx as [(_ & -> & _)|(N & Hx)].
     + exists m. split; auto.
     + destruct (Us x tx Hx) as (j & Hj & Hlt).
       * eapply not_in_rest; eauto.
       * exists j. split; auto.
-  - intros x tx j k' d' Hx Hj Hlt Hs Hd'. unfold tr_at in Hx.
+  - destruct L; [|exact I]. cbn in Lg |- *. destruct (Hleg eq_refl) as [Hl Hrem].
+    intros x tx j k' d' Hx Hj Hlt Hs Hd'. unfold tr_at in Hx.
     apply nth_update_inv in Hx as [(_ & -> & _)|(N & Hx)].
     + rewrite Hm' in Hj. injection Hj as <-. rewrite Hsec in Hs. injection Hs as <- <-. auto.
     + assert (j <> m) by (intros ->; eapply NoOther; eauto).
-      eapply L; eauto. lia.
+      eapply Lg; eauto. lia.
 Qed.
 
-Lemma inv_append : forall secs m p cands rest t' k d,
-  inv secs m (p, cands) ->
+Lemma inv_append : forall L secs m p cands rest t' k d,
+  inv L secs m (p, cands) ->
   nth_error secs m = Some (k, d) -> d <> DUnk ->
   (forall x tx, tr_at p x tx -> t_mid tx <> Some m) ->
-  t_mid t' = Some m -> legal d (t_dir t') = true -> t_rem t' = d ->
+  t_mid t' = Some m -> t_dir t' <> DUnk ->
+  (L = true -> legal d (t_dir t') = true /\ t_rem t' = d) ->
   (forall x, In x cands -> In x rest) ->
-  inv secs (S m) (p ++ [t'], rest).
+  inv L secs (S m) (p ++ [t'], rest).
 Proof.
-  intros secs m p cands rest t' k d [[U R] [Us L]] Hsec Hd NoOther Hm' Hleg Hrem Hrest.
+  intros L secs m p cands rest t' k d [[U R] [Us Lg]] Hsec Hd NoOther Hm' Hreal Hleg Hrest.
   cbn [fst snd] in *. unfold inv; cbn [fst snd].
   split; [split|split].
   - intros i1 i2 t1 t2 j H1 H2 M1 M2. unfold tr_at in *.
@@ -245,17 +264,17 @@ Proof.
     + eapply U; eauto.
     + rewrite Hm' in M2. injection M2 as <-. exfalso. eapply NoOther; eauto.
     + rewrite Hm' in M1. injection M1 as <-. exfalso. eapply NoOther; eauto.
-  - intros x tx Hx. unfold tr_at in Hx. apply nth_app_inv in Hx as [(_ & Hx)|(_ & ->)].
-    + eapply R; eauto.
-    + eapply legal_real; eauto.
+  - intros x tx Hx. unfold tr_at in Hx. apply nth_app_inv in Hx as [(_ & Hx)|(_ & ->)]; auto.
+    eapply R; eauto.
   - intros x tx Hx Hn. unfold tr_at in Hx. apply nth_app_inv in Hx as [(_ & Hx)|(_ & ->)].
     + destruct (Us x tx Hx) as (j & Hj & Hlt); [intros Hin; apply Hn; auto|].
       exists j. split; auto.
     + exists m. split; auto.
-  - intros x tx j k' d' Hx Hj Hlt Hs Hd'. unfold tr_at in Hx.
+  - destruct L; [|exact I]. cbn in Lg |- *. destruct (Hleg eq_refl) as [Hl Hrem].
+    intros x tx j k' d' Hx Hj Hlt Hs Hd'. unfold tr_at in Hx.
     apply nth_app_inv in Hx as [(_ & Hx)|(_ & ->)].
     + assert (j <> m) by (intros ->; eapply NoOther; eauto).
-      eapply L; eauto. lia.
+      eapply Lg; eauto. lia.
     + rewrite Hm' in Hj. injection Hj as <-. rewrite Hsec in Hs. injection Hs as <- <-. auto.
 Qed.
 
@@ -263,42 +282,45 @@ Lemma remote_section_unfold : forall p cands m k d, d <> DUnk ->
   remote_section (p, cands) m (k, d) = remote_section_known p cands m k d.
 Proof. intros p cands m k d H. destruct d; try congruence; reflexivity. Qed.
 
-Lemma inv_skip : forall secs m st k,
-  inv secs m st -> nth_error secs m = Some (k, DUnk) -> inv secs (S m) st.
+Lemma inv_skip : forall L secs m st k,
+  inv L secs m st -> nth_error secs m = Some (k, DUnk) -> inv L secs (S m) st.
 Proof.
-  intros secs m [p cands] k [W [Us L]] Hsec. cbn [fst snd] in *. split; [|split]; auto.
+  intros L secs m [p cands] k [W [Us Lg]] Hsec. cbn [fst snd] in *. split; [|split]; auto.
   - intros i t Hi Hn. destruct (Us i t Hi Hn) as (j & ? & ?). exists j. split; auto.
-  - intros i t j k' d' Hi Hj Hlt Hs Hd'. cbn [fst] in *.
+  - destruct L; [|exact I]. cbn in Lg |- *.
+    intros i t j k' d' Hi Hj Hlt Hs Hd'.
     assert (j <> m) by (intros ->; rewrite Hsec in Hs; injection Hs as _ <-; congruence).
-    eapply L; eauto. lia.
+    eapply Lg; eauto. lia.
 Qed.
 
-Lemma bind_facts : forall d t m,
-  (t_mid t = Some m \/ t_mid t = None) -> t_dir t <> DUnk -> d <> DUnk ->
-  (d = Inactive -> t_dir t = Inactive) ->
+(* the transceiver a section ends up with: bound to the mid, declared direction *)
+Lemma bind_mid : forall d t m,
+  (t_mid t = Some m \/ t_mid t = None) -> t_dir t <> DUnk ->
   t_mid (set_mid_if_empty (adjust d (set_rem t d)) m) = Some m /\
-  legal d (t_dir (set_mid_if_empty (adjust d (set_rem t d)) m)) = true /\
+  t_dir (set_mid_if_empty (adjust d (set_rem t d)) m) <> DUnk /\
+  t_dir (set_mid_if_empty (adjust d (set_rem t d)) m) = t_dir (adjust d (set_rem t d)) /\
   t_rem (set_mid_if_empty (adjust d (set_rem t d)) m) = d.
 Proof.
-  intros d t m Hm Hr Hd Hi.
+  intros d t m Hm Hr.
   destruct (adjust_fields d (set_rem t d)) as (Fm & Fr & _).
-  assert (Hl : legal d (t_dir (adjust d (set_rem t d))) = true) by (apply adjust_legal; auto).
+  assert (Hreal : t_dir (adjust d (set_rem t d)) <> DUnk) by (apply adjust_real; exact Hr).
   unfold set_mid_if_empty. rewrite Fm. cbn [t_mid set_rem].
   destruct Hm as [Hm|Hm]; rewrite Hm.
   - rewrite Fm. cbn [t_mid set_rem]. rewrite Fr. auto.
   - cbn [t_mid t_dir t_rem set_mid]. rewrite Fr. auto.
 Qed.
 
-Lemma inv_section : forall secs m st sec,
-  inv secs m st -> nth_error secs m = Some sec ->
-  inv secs (S m) (remote_section st m sec).
+Lemma inv_section : forall L secs m st sec,
+  inv L secs m st -> (L = true -> guard_from secs m (fst st)) ->
+  nth_error secs m = Some sec ->
+  inv L secs (S m) (remote_section st m sec).
 Proof.
-  intros secs m [p cands] [k d] I Hsec.
+  intros L secs m [p cands] [k d] I HG Hsec. cbn [fst] in HG.
   destruct (dir_eqb d DUnk) eqn:Ed.
   { apply dir_eqb_eq in Ed. subst d. cbn. eapply inv_skip; eauto. }
   assert (Hd : d <> DUnk) by (intros ->; discriminate).
   rewrite remote_section_unfold by auto. unfold remote_section_known.
-  pose proof I as [[U R] [Us L]]. cbn [fst snd] in *.
+  pose proof I as [[U R] [Us Lg]]. cbn [fst snd] in *.
   destruct (find_by_mid p m cands) as [[i|] rest] eqn:F;
     pose proof (find_by_mid_spec _ _ _ _ _ F) as FS; cbn beta iota in FS.
   - destruct FS as [(t & Ht & Hm) Hrest]. rewrite Ht.
@@ -306,9 +328,11 @@ Proof.
     assert (M0 : t_mid t0 = Some m) by (unfold t0; destruct (dir_eqb d Inactive); cbn; auto).
     assert (R0 : t_dir t0 <> DUnk).
     { unfold t0; destruct (dir_eqb d Inactive); cbn; [discriminate|eapply R; eauto]. }
-    assert (I0 : d = Inactive -> t_dir t0 = Inactive) by (intros ->; reflexivity).
-    destruct (bind_facts d t0 m (or_introl M0) R0 Hd I0) as (A & B & C).
-    eapply (inv_update secs m p cands rest i t); eauto.
+    destruct (bind_mid d t0 m (or_introl M0) R0) as (A & B & C & D).
+    eapply (inv_update L secs m p cands rest i t); eauto.
+    intros ->. split; auto. rewrite C. apply adjust_legal; auto.
+    + intros ->. reflexivity.
+    + intros ->. unfold t0. cbn. cbn [t_dir set_rem]. eapply (HG eq_refl m k i t); eauto.
   - destruct FS as [Hnone Hrest0].
     assert (NoOther : forall x tx, tr_at p x tx -> t_mid tx <> Some m).
     { intros x tx Hx. destruct (in_dec Nat.eq_dec x cands) as [Hin|Hnin].
@@ -317,44 +341,121 @@ Proof.
     unfold satisfy.
     destruct (satisfy_dirs p k (preferred d) cands) as [[i|] rest'] eqn:S;
       pose proof (satisfy_dirs_spec _ _ _ _ _ _ S) as [SA SB].
-    + destruct SB as (t & Ht & Hmid). rewrite Ht.
-      assert (Hni : d = Inactive -> t_dir t = Inactive).
-      { intros ->. cbn in S. discriminate. }
+    + destruct SB as (t & Ht & Hmid & Hpref). rewrite Ht.
       assert (R0 : t_dir t <> DUnk) by (eapply R; eauto).
-      destruct (bind_facts d t m (or_intror Hmid) R0 Hd Hni) as (A & B & C).
-      eapply (inv_update secs m p cands rest' i t); eauto.
-    + eapply (inv_append secs m p cands rest'); eauto.
-      * cbn. apply new_local_legal; auto.
+      destruct (bind_mid d t m (or_intror Hmid) R0) as (A & B & C & D).
+      eapply (inv_update L secs m p cands rest' i t); eauto.
+      intros _. split; auto. rewrite C. apply adjust_legal; auto.
+      * intros ->. cbn in Hpref. contradiction.
+      * intros ->. cbn in Hpref. destruct Hpref as [E|[]]. cbn [t_dir set_rem]. rewrite <- E.
+        split; discriminate.
+    + eapply (inv_append L secs m p cands rest'); eauto.
+      * destruct d; cbn; congruence.
+      * intros _. split; [cbn; apply new_local_legal; auto|reflexivity].
       * intros x Hx. destruct (SA x Hx) as [[]|]; auto.
 Qed.
 
-Lemma inv_sections : forall secs rest m st,
-  (forall j, nth_error secs (m + j) = nth_error rest j) ->
-  inv secs m st ->
-  inv secs (m + List.length rest) (remote_sections st m rest).
+(* processing section m does not touch transceivers bound to later mids *)
+Lemma guard_section : forall secs m p cands sec,
+  wf p -> guard_from secs m p -> guard_from secs (S m) (fst (remote_section (p, cands) m sec)).
 Proof.
-  intros secs. induction rest as [|s more IH]; intros m st Hn I; cbn.
-  - now rewrite Nat.add_0_r.
+  intros secs m p cands [k d] [_ R] G.
+  assert (Keep : guard_from secs (S m) p).
+  { intros j k' i t Hle. apply G. lia. }
+  destruct (dir_eqb d DUnk) eqn:Ed.
+  { apply dir_eqb_eq in Ed. subst d. exact Keep. }
+  assert (Hd : d <> DUnk) by (intros ->; discriminate).
+  rewrite remote_section_unfold by auto. unfold remote_section_known.
+  assert (Upd : forall i t t', tr_at p i t -> t_mid t' = Some m -> guard_from secs (S m) (update p i t')).
+  { intros i t t' Hi Hm' j k' x tx Hle Hs Hx Hj. unfold tr_at in Hx.
+    apply nth_update_inv in Hx as [(_ & -> & _)|(_ & Hx)].
+    - rewrite Hm' in Hj. injection Hj as <-. lia.
+    - eapply Keep; eauto. }
+  destruct (find_by_mid p m cands) as [[i|] rest] eqn:F;
+    pose proof (find_by_mid_spec _ _ _ _ _ F) as FS; cbn beta iota in FS.
+  - destruct FS as [(t & Ht & Hm) _]. rewrite Ht. cbn [fst].
+    set (t0 := if dir_eqb d Inactive then stop_tr t else t).
+    assert (M0 : t_mid t0 = Some m) by (unfold t0; destruct (dir_eqb d Inactive); cbn; auto).
+    assert (R0 : t_dir t0 <> DUnk).
+    { unfold t0; destruct (dir_eqb d Inactive); cbn; [discriminate|eapply R; eauto]. }
+    eapply (Upd i t); eauto. apply (bind_mid d t0 m (or_introl M0) R0).
+  - unfold satisfy.
+    destruct (satisfy_dirs p k (preferred d) cands) as [[i|] rest'] eqn:S;
+      pose proof (satisfy_dirs_spec _ _ _ _ _ _ S) as [_ SB].
+    + destruct SB as (t & Ht & Hmid & _). rewrite Ht. cbn [fst].
+      eapply (Upd i t); eauto.
+      apply (bind_mid d t m (or_intror Hmid)). eapply R; eauto.
+    + cbn [fst]. intros j k' x tx Hle Hs Hx Hj. unfold tr_at in Hx.
+      apply nth_app_inv in Hx as [(_ & Hx)|(_ & ->)].
+      * eapply Keep; eauto.
+      * cbn in Hj. injection Hj as <-. lia.
+Qed.
+
+Lemma inv_sections : forall L secs rest m st,
+  (forall j, nth_error secs (m + j) = nth_error rest j) ->
+  inv L secs m st -> (L = true -> guard_from secs m (fst st)) ->
+  inv L secs (m + List.length rest) (remote_sections st m rest) /\
+  (L = true -> guard_from secs (m + List.length rest) (fst (remote_sections st m rest))).
+Proof.
+  intros L secs. induction rest as [|s more IH]; intros m st Hn I G; cbn.
+  - rewrite Nat.add_0_r. auto.
   - replace (m + S (List.length more)) with (S m + List.length more) by lia.
     apply IH.
     + intros j. specialize (Hn (S j)). cbn in Hn. rewrite <- Hn. f_equal. lia.
     + apply inv_section; auto. specialize (Hn 0). cbn in Hn. now rewrite Nat.add_0_r in Hn.
+    + intros HL. destruct st as [p cands]. apply guard_section; [apply I|auto].
 Qed.
 
 (* all offered sections *)
 Definition good (secs : list (kind * dir)) (p : pc) : Prop :=
   wf p /\ leg secs (List.length secs) p.
 
-Lemma set_remote_good : forall p secs, wf p -> good secs (set_remote p secs).
+Lemma inv_start : forall L secs p, wf p -> inv L secs 0 (p, seq 0 (List.length p)).
+Proof.
+  intros L secs p W. split; [exact W|split]; cbn [fst snd].
+  - intros i t Hi Hn. exfalso. apply Hn. apply in_seq. split; [lia|].
+    cbn. apply nth_error_Some. unfold tr_at in Hi. congruence.
+  - destruct L; [|exact I]. intros i t j k d _ _ Hlt. lia.
+Qed.
+
+(* without any guard: reachable states stay well-formed *)
+Lemma set_remote_wf : forall p secs, wf p -> wf (set_remote p secs).
 Proof.
   intros p secs W. unfold set_remote.
-  assert (I0 : inv secs 0 (p, seq 0 (List.length p))).
-  { split; [exact W|split]; cbn [fst snd].
-    - intros i t Hi Hn. exfalso. apply Hn. apply in_seq. split; [lia|].
-      cbn. apply nth_error_Some. unfold tr_at in Hi. congruence.
-    - intros i t j k d _ _ Hlt. lia. }
-  pose proof (inv_sections secs secs 0 _ (fun j => eq_refl) I0) as [W' [_ L']].
+  destruct (inv_sections false secs secs 0 _ (fun j => eq_refl) (inv_start false secs p W))
+    as [[W' _] _]; [discriminate|exact W'].
+Qed.
+
+Lemma set_remote_good : forall p secs,
+  wf p -> guard_from secs 0 p -> good secs (set_remote p secs).
+Proof.
+  intros p secs W G. unfold set_remote.
+  destruct (inv_sections true secs secs 0 _ (fun j => eq_refl) (inv_start true secs p W) (fun _ => G))
+    as [[W' [_ L']] _].
   split; auto.
+Qed.
+
+(* the boolean guard of the model is guard_from 0 *)
+Lemma reoffer_ok_from_guard : forall p secs m,
+  reoffer_ok_from p m secs = true ->
+  forall j k i t, nth_error secs j = Some (k, Sendonly) -> tr_at p i t ->
+    t_mid t = Some (m + j) -> t_dir t <> Sendrecv /\ t_dir t <> Sendonly.
+Proof.
+  intros p. induction secs as [|[k0 d0] more IH]; intros m H j k i t Hs Hi Hm.
+  - destruct j; discriminate.
+  - cbn in H. apply andb_true_iff in H as [H1 H2]. destruct j as [|j].
+    + cbn in Hs. injection Hs as -> ->. cbn in H1. rewrite forallb_forall in H1.
+      assert (Hin : In t p) by (eapply nth_error_In; exact Hi).
+      specialize (H1 t Hin). apply negb_true_iff in H1. unfold keeps_sending, has_mid in H1.
+      rewrite Hm, Nat.add_0_r, Nat.eqb_refl in H1. cbn in H1.
+      apply orb_false_iff in H1 as [A B].
+      split; intros E; rewrite E in *; discriminate.
+    + cbn in Hs. apply (IH (S m) H2 j k i t Hs Hi). rewrite Hm. f_equal. lia.
+Qed.
+
+Lemma reoffer_ok_guard : forall p secs, reoffer_ok p secs = true -> guard_from secs 0 p.
+Proof.
+  intros p secs H j k i t _ Hs Hi Hm. eapply (reoffer_ok_from_guard p secs 0 H j k i t); eauto.
 Qed.
 
 (* ---------- local operations ---------- *)
@@ -531,11 +632,11 @@ Qed.
 
 (* any state with unique mids, any offer, guarded local operations *)
 Lemma answer_legal : forall p secs mid ds,
-  wf p -> setsender_guarded (set_remote p secs) mid = true ->
+  wf p -> reoffer_ok p secs = true -> setsender_guarded (set_remote p secs) mid = true ->
   answer_of p secs mid = Ok ds -> all_legal secs ds = true.
 Proof.
-  intros p secs mid ds W Hg H. rewrite exchange_answer in H.
-  pose proof (local_ops_good secs mid _ (set_remote_good p secs W) Hg) as [_ L].
+  intros p secs mid ds W Hr Hg H. rewrite exchange_answer in H.
+  pose proof (local_ops_good secs mid _ (set_remote_good p secs W (reoffer_ok_guard _ _ Hr)) Hg) as [_ L].
   unfold create_answer in H.
   eapply (answer_dirs_legal secs _ L secs 0); eauto.
 Qed.
@@ -607,7 +708,7 @@ Proof.
     destruct (local_ops (set_remote p secs) mid) as [p2 codes] eqn:E. cbn [fst].
     assert (W2 : wf p2).
     { replace p2 with (fst (local_ops (set_remote p secs) mid)) by now rewrite E.
-      apply wf_local_ops. apply (set_remote_good p secs W). }
+      apply wf_local_ops. now apply set_remote_wf. }
     destruct (create_answer p2 secs); auto. now apply wf_local_answer.
 Qed.
 
@@ -623,35 +724,54 @@ Proof.
 Qed.
 
 Lemma history_answer_legal : forall os secs mid ds,
+  reoffer_ok (run_history os) secs = true ->
   setsender_guarded (set_remote (run_history os) secs) mid = true ->
   answer_of (run_history os) secs mid = Ok ds -> all_legal secs ds = true.
 Proof. intros os secs mid ds. apply answer_legal, wf_run. Qed.
 
 Lemma history_answer_legal_no_setsender : forall os secs mid ds,
-  no_setsender mid = true ->
+  reoffer_ok (run_history os) secs = true -> no_setsender mid = true ->
   answer_of (run_history os) secs mid = Ok ds -> all_legal secs ds = true.
 Proof.
-  intros os secs mid ds H. apply history_answer_legal. now apply no_setsender_guarded.
+  intros os secs mid ds Hr H. apply history_answer_legal; auto. now apply no_setsender_guarded.
 Qed.
 
-(* the unguarded statement fails: SetSender between set-remote and create-answer *)
+(* the unguarded statement fails, in three independent ways *)
+Definition bound_sendrecv : list op := [Local (AddTrack Audio); Exchange [(Audio, Sendrecv)] []].
+Definition bound_sendonly : list op := [Exchange [(Audio, Recvonly)] []].
+
+Lemma refuted_reoffer_sendrecv :
+  answer_of (run_history bound_sendrecv) [(Audio, Sendonly)] [] = Ok [Sendrecv] /\
+  all_legal [(Audio, Sendonly)] [Sendrecv] = false /\
+  reoffer_ok (run_history bound_sendrecv) [(Audio, Sendonly)] = false.
+Proof. repeat split. Qed.
+
+Lemma refuted_reoffer_sendonly :
+  answer_of (run_history bound_sendonly) [(Audio, Sendonly)] [] = Ok [Sendonly] /\
+  all_legal [(Audio, Sendonly)] [Sendonly] = false /\
+  reoffer_ok (run_history bound_sendonly) [(Audio, Sendonly)] = false.
+Proof. repeat split. Qed.
+
+Lemma refuted_setsender :
+  answer_of (run_history []) [(Audio, Sendonly)] [SetSender 0] = Ok [Sendrecv] /\
+  all_legal [(Audio, Sendonly)] [Sendrecv] = false /\
+  reoffer_ok (run_history []) [(Audio, Sendonly)] = true /\
+  answer_of (run_history []) [(Video, Inactive)] [SetSender 0] = Ok [Sendonly] /\
+  all_legal [(Video, Inactive)] [Sendonly] = false.
+Proof. repeat split. Qed.
+
 Lemma full_refuted : exists os secs mid ds,
   answer_of (run_history os) secs mid = Ok ds /\ all_legal secs ds = false.
 Proof.
-  exists [], [(Audio, Sendonly)], [SetSender 0], [Sendrecv]. split; reflexivity.
+  exists bound_sendrecv, [(Audio, Sendonly)], [], [Sendrecv]. split; reflexivity.
 Qed.
 
-(* what the repair of the sendonly arm changed *)
-Lemma repair_scope : forall d t,
-  t_dir t <> DUnk ->
-  adjust_before_repair d t <> adjust d t ->
-  d = Sendonly /\ (t_dir t = Sendrecv \/ t_dir t = Sendonly) /\
-  legal d (t_dir (adjust_before_repair d t)) = false.
-Proof.
-  intros d t Hr H. unfold adjust_before_repair in *.
-  destruct d; try congruence. unfold adjust in H.
-  destruct (t_dir t) eqn:E; try congruence; (split; [reflexivity|split; [auto|]]); rewrite E; reflexivity.
-Qed.
+(* the guard is tight for the direction switch: a bound transceiver that keeps
+   sending stays as it is when its mid is re-offered sendonly *)
+Lemma adjust_keeps_sending : forall t,
+  t_dir t = Sendrecv \/ t_dir t = Sendonly ->
+  adjust Sendonly t = t /\ legal Sendonly (t_dir t) = false.
+Proof. intros t [E|E]; unfold adjust; rewrite E; split; reflexivity. Qed.
 
 Lemma legal_table : forall o a, o <> DUnk ->
   (legal o a = true <->
@@ -670,12 +790,12 @@ Proof.
     destruct a; try reflexivity. congruence.
 Qed.
 
-Lemma set_remote_establishes : forall p secs, wf p ->
+Lemma set_remote_establishes : forall p secs, wf p -> reoffer_ok p secs = true ->
   forall i t j k d, nth_error (set_remote p secs) i = Some t -> t_mid t = Some j ->
     nth_error secs j = Some (k, d) -> d <> DUnk ->
     legal d (t_dir t) = true /\ t_rem t = d.
 Proof.
-  intros p secs W i t j k d Hi Hj Hs Hd.
-  destruct (set_remote_good p secs W) as [_ L].
+  intros p secs W Hr i t j k d Hi Hj Hs Hd.
+  destruct (set_remote_good p secs W (reoffer_ok_guard _ _ Hr)) as [_ L].
   eapply L; eauto. apply nth_error_Some. congruence.
 Qed.
